@@ -1,6 +1,36 @@
 import Driver.Util
-/-! Model driver stub (owned by the Ring work package). -/
+import Verif.Model.Ring
+/-! Model driver for suite c20 (op language: see /verif/go/harness/suite_c20.go). -/
 namespace Driver.Ring
-def step (s : Unit) (_w : List String) : Unit × String := (s, "unimplemented")
-def main : IO Unit := Driver.loop () step
+open Verif.Ring Driver
+
+/-- `logging.BufferSize`; the suite's `cap` op compares it with the constant in the Go source -/
+def bufferSize : Nat := 1024
+
+abbrev St := State String
+
+def fmt (ms : List String) : String :=
+  if ms.isEmpty then "ok 0 -" else "ok " ++ toString ms.length ++ " " ++ ",".intercalate ms
+
+def logn (s : St) (k : Nat) : Nat → Nat → St
+  | 0, _ => s
+  | c + 1, start => logn (write s k ("m" ++ toString start)) k c (start + 1)
+
+def step (s : St) (w : List String) : St × String :=
+  match w with
+  | ["cap"] => (s, "ok " ++ toString s.slots.length)
+  | ["with", k] =>
+    let k := k.toNat!
+    if k < s.cores.length then (derive s k, "ok " ++ toString s.cores.length) else (s, "bad-op")
+  | ["log", k, m] =>
+    let k := k.toNat!
+    if k < s.cores.length then (write s k m, "ok") else (s, "bad-op")
+  | ["logn", k, c, st] =>
+    let k := k.toNat!
+    if k < s.cores.length then (logn s k c.toNat! st.toNat!, "ok") else (s, "bad-op")
+  | ["getlogs"] => (s, fmt (getLogs s))
+  | ["writelogs"] => (s, fmt (getLogs s))
+  | _ => (s, "bad-op")
+
+def main : IO Unit := loop (init bufferSize : St) step
 end Driver.Ring
